@@ -31,6 +31,7 @@ type StreamCfg struct {
 	BigPSI       bool // sections close to the 1021-byte limit (units of up to 6 packets)
 	Straddle     bool // spec-legal sections continued in the next payload_unit_start packet
 	TypedGarbage bool // descriptors with typed tags and arbitrary bodies (hostile inputs only)
+	MidPCR       bool // PES units whose later packets carry PCRs as well
 }
 
 // typedTags are the descriptor tags the library has typed decoders for.
@@ -287,6 +288,9 @@ func GenModel(r *core.PRNG, cfg StreamCfg) *refts.Model {
 	psiUnit := func(kinds []string, p *refts.PMT) refts.Unit {
 		u := refts.Unit{Tag: nextTag(), Prio: r.Chance(1, 8)}
 		u.Pointer = []int{0, 0, 0, 1, 3, 17}[r.Intn(6)]
+		if r.Chance(1, 10) {
+			u.Pointer = []int{r.Range(18, 182), r.Range(150, 182), 182, 181}[r.Intn(4)] // the whole legal range
+		}
 		ns := 1
 		if cfg.MultiSec {
 			ns = r.Pick(0, 5, 3, 2)
@@ -418,6 +422,9 @@ func GenModel(r *core.PRNG, cfg StreamCfg) *refts.Model {
 			}
 			total := len(refts.EncodePES(u.PES, nil)) + u.Len
 			u.Chunks = genChunks(r, total, firstMax, cfg.Full184 || u.Biased)
+			if cfg.MidPCR && r.Chance(1, 2) {
+				u.MidPCR = true
+			}
 			s.Units = append(s.Units, u)
 		}
 		m.Streams = append(m.Streams, s)
